@@ -81,6 +81,12 @@ type world struct {
 	acctKeys            map[string]*hdkeychain.ExtendedKey // scope/account/branch -> branch xpub-capable key
 	violated            bool
 	pendingFail         map[string]int
+	byScript            map[string]int // pkScript -> index into issuedAddrs
+	lockedOps           map[wire.OutPoint]bool
+	leases              map[wire.OutPoint]time.Time
+	haveAcct1           bool
+	acct1Scope          waddrmgr.KeyScope
+	sentAccepted        []*wire.MsgTx
 	built               []*wire.MsgTx
 	pendingResend       []string
 	unminedAtStart      map[chainhash.Hash]bool
@@ -102,7 +108,8 @@ func (x *world) fail(sig, format string, a ...any) {
 
 // newWorld creates node, database and wallet and attaches the wallet.
 func newWorld(env *core.Env, p *core.Plan) (*world, error) {
-	x := &world{env: env, p: p, prop: p.Prop, byAddr: map[string]int{}, acctKeys: map[string]*hdkeychain.ExtendedKey{}}
+	x := &world{env: env, p: p, prop: p.Prop, byAddr: map[string]int{}, acctKeys: map[string]*hdkeychain.ExtendedKey{},
+		byScript: map[string]int{}, lockedOps: map[wire.OutPoint]bool{}, leases: map[wire.OutPoint]time.Time{}}
 	r := core.NewRand(core.Mix(p.Seed, 0x77a11e7))
 	txauthor.VerifSeedCPRNG(int64(core.Mix(p.Seed, 0xc9) >> 1)) // overlay probe: change position is a function of the plan
 	simrt.SetMapSeed(core.Mix(p.Seed, 0x3a9) | 1)               // map iteration order inside btcwallet is a function of the plan
@@ -229,8 +236,20 @@ func (x *world) branchKey(scope waddrmgr.KeyScope, account, branch uint32) (*hdk
 		return key, nil
 	}
 	cur := x.root
-	for _, i := range []uint32{scope.Purpose + hdkeychain.HardenedKeyStart, scope.Coin + hdkeychain.HardenedKeyStart,
+	for lvl, i := range []uint32{scope.Purpose + hdkeychain.HardenedKeyStart, scope.Coin + hdkeychain.HardenedKeyStart,
 		account + hdkeychain.HardenedKeyStart, branch} {
+		if lvl == 2 && account > 0 {
+			// Accounts created after the wallet was created are derived from
+			// the coin-type key as it is STORED (serialised, 32-byte padded) and
+			// parsed back, not from the in-memory chain: with btcsuite's legacy
+			// hardened derivation this differs from the in-memory chain exactly
+			// when the coin-type private key has a leading zero byte.
+			rt, err := hdkeychain.NewKeyFromString(cur.String())
+			if err != nil {
+				return nil, err
+			}
+			cur = rt
+		}
 		n, err := cur.DeriveNonStandard(i) // nolint: waddrmgr's legacy rule
 		if err != nil {
 			return nil, err
@@ -324,6 +343,7 @@ func (x *world) record(addr btcutil.Address, scope waddrmgr.KeyScope, account ui
 	if ok {
 		if _, dup := x.byAddr[addr.String()]; !dup {
 			x.byAddr[addr.String()] = len(x.issuedAddrs)
+			x.byScript[string(payTo(addr, 0).PkScript)] = len(x.issuedAddrs)
 			x.issuedAddrs = append(x.issuedAddrs, is)
 		}
 	}
